@@ -966,3 +966,34 @@ Proof.
   induction l as [|[h|] t IH]; cbn [filter headers_of]; [reflexivity| |exact IH].
   destruct (negb (rw_drops r h)); cbn [headers_of]; rewrite IH; reflexivity.
 Qed.
+
+(* ------------------------------------------------------------------ *)
+(** * A correlation header name accepted by [validate_sozu_id_header] satisfies [id_ok] *)
+
+Lemma eq_nc_congr_r a x y : eq_nc x y = true -> eq_nc a x = eq_nc a y.
+Proof. intros H. rewrite (eq_nc_sym a x), (eq_nc_sym a y). apply eq_nc_congr. exact H. Qed.
+
+Lemma valid_id_name_not n r : valid_id_name n = true -> In r reserved_id_names -> eq_nc n r = false.
+Proof.
+  unfold valid_id_name. intros H Hin. apply negb_true_iff in H.
+  destruct (eq_nc n r) eqn:E; [|reflexivity].
+  assert (existsb (eq_nc n) reserved_id_names = true) by (apply existsb_exists; exists r; split; assumption). congruence.
+Qed.
+
+Lemma valid_id_name_id_ok c : valid_id_name (c_idname c) = true -> id_ok c.
+Proof.
+  intros H. set (n := c_idname c) in *.
+  assert (Hr : forall x r, eq_nc x r = true -> In r reserved_id_names -> eq_nc n x = false).
+  { intros x r Hx Hin. rewrite (eq_nc_congr_r n x r Hx). apply (valid_id_name_not n r H Hin). }
+  assert (H1 : eq_nc n n_connection = false) by (apply (Hr _ (B "connection"%string)); [reflexivity|cbn; tauto]).
+  assert (H2 : eq_nc n n_xproto = false) by (apply (Hr _ (B "x-forwarded-proto"%string)); [reflexivity|cbn; tauto]).
+  assert (H3 : eq_nc n n_xport = false) by (apply (Hr _ (B "x-forwarded-port"%string)); [reflexivity|cbn; tauto]).
+  assert (H4 : eq_nc n n_xff = false) by (apply (Hr _ (B "x-forwarded-for"%string)); [reflexivity|cbn; tauto]).
+  assert (H5 : eq_nc n n_xrip = false) by (apply (Hr _ (B "x-real-ip"%string)); [reflexivity|cbn; tauto]).
+  assert (H6 : eq_nc n n_fwd = false) by (apply (Hr _ (B "forwarded"%string)); [reflexivity|cbn; tauto]).
+  assert (H7 : eq_nc n n_ua = false) by (apply (Hr _ (B "user-agent"%string)); [reflexivity|cbn; tauto]).
+  assert (H8 : eq_nc n n_xrid = false) by (apply (Hr _ (B "x-request-id"%string)); [reflexivity|cbn; tauto]).
+  split.
+  - unfold classify. fold n. rewrite H1, H2, H3, H4, H5, H6, H7, H8, eq_nc_refl. reflexivity.
+  - rewrite eq_nc_sym. exact H5.
+Qed.
